@@ -365,9 +365,14 @@ func exec(x *fw.Ctx, c Case) {
 	for k := 0; k < nref; k++ {
 		w, err := refRun(m, mainNode)
 		if err != nil {
+			if err.Error() == "budget" && c.K <= k {
+				// the long re-evaluation stops where steps or magnitudes leave the small range
+				x.Cover("long-reevaluation-cut-short")
+				break
+			}
 			if err.Error() == "budget" {
 				x.Trivial()
-				x.Cover("skipped:reference-budget")
+				x.Cover("skipped:reference-budget-or-magnitude")
 				return
 			}
 			x.Fail("harness: reference cannot evaluate", "%s: %s", c.Main, err)
